@@ -17,7 +17,7 @@ def run(tier, replay=None):
     st2 = common.merge_stats(sh2.stats)
     # systematic leg: every schedule with at most `bound` preemptions of each small configuration (stateless DFS over the real code)
     bound = 2 if tier == 'quick' else 3
-    ncfg = 48
+    ncfg = 60
     sh3 = common.Sharded(exe2, lambda a, b: ['c16dfs', common.seed(), a, b, bound, 3000000], ncfg, tag='c16dfs', chunk=1, timeout=1500,
                          case_timeout=1300).run()
     common.absorb(res, sh3)
@@ -27,7 +27,7 @@ def run(tier, replay=None):
     res.rule = ('sequential: random non-blocking histories (<= 40 ops over write, read, setFileSize, abort, setBufferSize, observers) against '
                 'the FIFO model, destructor frees queued objects exactly once; concurrent: 1 producer (0..4 unique objects) + 1 consumer + 1 '
                 'controller thread issuing setFileSize(tellp) / abort / setFileSize(n) at a PRNG-chosen point or, once the producer is done, setFileSize(k < n) '
-                '(the consumer may already be blocked on the empty queue), capacities 1..3, under the schedule controller; '
+                '(the consumer may already be blocked on the empty queue) or raising the capacity while the producer may be blocked at the old one, capacities 1..3, under the schedule controller; '
                 'event-log checker: FIFO prefix, exactly-once, capacity inequality, null implies drained, abort releases all, no leak. '
                 'distinct = op-kind sequences + schedule signatures')
     res.samples = (st.get('samples', []) + st2.get('samples', []))[:8]
